@@ -4,6 +4,8 @@ CONSTANTS
   Spaces = {"mut", "jmut", "formats"}
   CondDepth = 0
   ItemDepth = 0
+  CSibs = {}
+  ISibs = {}
   MutFields = 16
   JMutNodes = 24
   Tags = {0, 1, 2, 3, 4, 17, 33, 40, 64, 72, 128, 224, 255}
